@@ -66,9 +66,9 @@ CHECKS = {
     "C18": {"jobs": [
         {"name": "decoders", "target": "codec_enum", "args": ["--mode", "c18"], "thorough_args": ["--thorough"]},
     ], "assumptions": ["reference encoder (src/ref/mqtt_ref.hpp) generates only well-formed packets (self-checked by its own strict decoder)"]},
-    "C19": {"parallel_jobs": 1, "budget_quick": 1500, "budget_thorough": 3500, "jobs": [
-        {"name": "hostile-broker", "target": "simnet", "args": ["--set", "C19"], "thorough_args": ["--thorough"], "timeout_thorough": 3400},
-        {"name": "hostile-broker-asan", "target": "simnet_asan", "args": ["--set", "C19a"], "thorough_args": ["--thorough"], "env": ASAN_ENV, "timeout_quick": 1500, "timeout_thorough": 3400},
+    "C19": {"parallel_jobs": 1, "budget_quick": 2700, "budget_thorough": 7000, "jobs": [
+        {"name": "hostile-broker", "target": "simnet", "args": ["--set", "C19"], "thorough_args": ["--thorough"], "budget_quick": 900, "timeout_quick": 1000, "budget_thorough": 2400, "timeout_thorough": 2600},
+        {"name": "hostile-broker-asan", "target": "simnet_asan", "args": ["--set", "C19a"], "thorough_args": ["--thorough"], "env": ASAN_ENV, "budget_quick": 900, "timeout_quick": 1000, "budget_thorough": 2400, "timeout_thorough": 2600},
         {"name": "decoder-guard-pages", "target": "codec_enum", "args": ["--mode", "c19"], "thorough_args": ["--thorough"], "timeout_thorough": 3000},
     ], "assumptions": ["over-/under-reads are observed through PROT_NONE guard pages adjacent to the packet body"]},
     "C20": {"jobs": [
